@@ -2,7 +2,8 @@
     Statements only.  A stack of views is a chain of path-transforming layers over a root
     backend (Model/Views.v); [root_of c] is where the stack's own root lies in the backend. *)
 From GC Require Import Common.Base Model.Paths Model.Fs Model.Views Proofs.Paths Proofs.Fs Proofs.Views Proofs.NonInterf
-  Model.ViewsCache Proofs.Clean Proofs.ViewsCache Model.Cache Proofs.Cache Proofs.CacheFrame.
+  Model.ViewsCache Proofs.Clean Proofs.ViewsCache Model.Cache Proofs.Cache Proofs.CacheFrame
+  Model.DiskFs Model.DiskHist Proofs.C03More.
 
 (** Reduction never yields an empty, "." or ".." component: a successfully reduced path cannot
     name anything above the point it is resolved from. *)
@@ -339,3 +340,223 @@ Example C03_ex_stack :
             resolve false c [46;46;47;120] = None /\
             resolve false c [120;47;46;46;47;121] = Some [[97]; [98]; [99]; [121]].
 Proof. eexists. vm_compute. repeat split. Qed.
+
+(** ** Proof audit (Proofs/C03More.v): the read half for every stack, histories through many
+    views, views of views, rejection at the level of results, the disk filespace. *)
+
+(** [vagree b t1 t2] (Proofs/C03More.v): the two parent trees have the same subtree at [b] and
+    every STRICT ancestor of [b] has the same kind (missing / directory / file) in both.  [b]
+    itself may be missing or a file, and the parents may differ in every name and every byte
+    elsewhere.  The relation of the first round implies it. *)
+Theorem C03_agree_is_vagree : forall b t1 t2, agree b t1 t2 -> vagree b t1 t2.
+Proof. exact agree_vagree. Qed.
+Print Assumptions C03_agree_is_vagree.
+
+(** READ half for EVERY cache-free stack - memfs child views, sub-path views, read-only masks,
+    encrypted layers in any order and depth ([chain_under b c]: bases well formed, the stack's
+    own root at or below [b], or no root at all): any of the 16 operations with any raw arguments
+    gives the same answer on two parents related by [vagree b], and the parents are still related
+    afterwards - also when the operation removed the root of the view (a sub-path view can).
+    Supersedes [C03_view_noninterference], which is the case of one memfs wrapper layer whose root
+    exists as a directory. *)
+Theorem C03_read_half_stacks : forall b c t1 t2 o, chain_under b c -> vagree b t1 t2 ->
+  snd (chain_step c t1 o) = snd (chain_step c t2 o) /\
+  vagree b (fst (chain_step c t1 o)) (fst (chain_step c t2 o)).
+Proof. exact chain_step_vagree. Qed.
+Print Assumptions C03_read_half_stacks.
+
+(** A stack without a root answers without looking at the tree at all. *)
+Theorem C03_read_half_rootless : forall c o, no_cache c = true -> bases_ok c -> root_of c = None ->
+  forall t1 t2, snd (chain_step c t1 o) = snd (chain_step c t2 o).
+Proof. exact chain_step_no_root_blind. Qed.
+Print Assumptions C03_read_half_rootless.
+
+(** ... and over histories issued, in any order, through ANY NUMBER of views of one backend that
+    are rooted at or below [b] ([run_chains]: every step names its own stack). *)
+Theorem C03_read_half_history : forall b h, Forall (fun co => chain_under b (fst co)) h ->
+  forall t1 t2, vagree b t1 t2 ->
+  snd (run_chains t1 h) = snd (run_chains t2 h) /\
+  vagree b (fst (run_chains t1 h)) (fst (run_chains t2 h)).
+Proof. exact chains_noninterference. Qed.
+Print Assumptions C03_read_half_history.
+
+(** The ancestor half of [vagree] cannot be dropped: whether the root of a view can exist at all
+    (an ancestor that is a file) is visible through the view. *)
+Theorem C03_read_half_sub_only_refuted :
+  exists ks c b t1 t2 o,
+    build [] ks = Some c /\ root_of c = Some b /\ wf t1 = true /\ wf t2 = true /\
+    NonInterf.sub t1 b = NonInterf.sub t2 b /\
+    snd (chain_step c t1 o) <> snd (chain_step c t2 o).
+Proof. exact read_half_sub_only_refuted. Qed.
+Print Assumptions C03_read_half_sub_only_refuted.
+
+(** Rejection at the level of RESULTS: through any cache-free stack, an operation one of whose
+    path arguments - source or destination - climbs above the root is answered with the failure
+    value of the operation (an error; false for IsExist / IsFile / IsDir) and the tree is returned
+    as it was. *)
+Theorem C03_climb_rejected_result : forall c t o s, no_cache c = true -> bases_ok c ->
+  In s (args o) -> reduce s = None -> chain_step c t o = (t, fail_out o).
+Proof. exact chain_step_climb_rejected. Qed.
+Print Assumptions C03_climb_rejected_result.
+
+(** WRITE half over histories through any number of views rooted at or below [b]: the two clauses
+    of [C03_confined] hold between the first and the last tree. *)
+Theorem C03_history_confined : forall b h q, Forall (fun co => chain_under b (fst co)) h ->
+  forall t, WF t -> is_prefix b q = false ->
+  (forall e, lookup t q = Some e -> lookup (fst (run_chains t h)) q = Some e) /\
+  (lookup t q = None -> lookup (fst (run_chains t h)) q <> None ->
+   lookup (fst (run_chains t h)) q = Some D /\ is_prefix q b = true).
+Proof. exact (fun b h q H t W Hq => proj1 (chains_outside b h q H t W Hq)). Qed.
+Print Assumptions C03_history_confined.
+
+(** VIEWS OF VIEWS.  The first round showed that a stack is confined to its OWN root; where the
+    root of [Filespace(p)] of a view lies was not stated.  For every stack with the bases the API
+    leaves behind ([bases_clean]: true of every stack built from the memfs root, [C03_api_views])
+    the root of a child view is the root of the view it was obtained from, extended by the
+    canonical reduction of [p]; a child of a rootless view is rootless.  For sub-path views this
+    is where path.Clean has to be harmless on the strings SubFS concatenates. *)
+Theorem C03_child_root : forall c p c', no_cache c = true -> bases_clean c -> child c p = Some c' ->
+  exists r, reduce p = Some r /\ good_path r = true /\
+            root_of c' = match root_of c with Some b => Some (b ++ r) | None => None end.
+Proof. exact child_root. Qed.
+Print Assumptions C03_child_root.
+
+Theorem C03_api_views : forall ks c b, build [] ks = Some c -> root_of c = Some b -> view_under b c.
+Proof. exact api_view. Qed.
+Print Assumptions C03_api_views.
+
+Theorem C03_child_view_under : forall b c p c', view_under b c -> child c p = Some c' -> view_under b c'.
+Proof. exact child_view_under. Qed.
+Print Assumptions C03_child_view_under.
+
+(** Histories in which views are obtained from views on the way ([run_vv c0]: every step names
+    the Filespace arguments leading from the starting view [c0] to the view it uses, then the
+    operation; an unobtainable view makes the step an error without effect): read half and write
+    half, relative to the root of the STARTING view. *)
+Theorem C03_views_of_views_read_half : forall b c0 h, view_under b c0 ->
+  forall t1 t2, vagree b t1 t2 ->
+  snd (run_vv c0 t1 h) = snd (run_vv c0 t2 h) /\
+  vagree b (fst (run_vv c0 t1 h)) (fst (run_vv c0 t2 h)).
+Proof. exact vv_noninterference. Qed.
+Print Assumptions C03_views_of_views_read_half.
+
+Theorem C03_views_of_views_confined : forall b c0 h q, view_under b c0 ->
+  forall t, WF t -> is_prefix b q = false ->
+  (forall e, lookup t q = Some e -> lookup (fst (run_vv c0 t h)) q = Some e) /\
+  (lookup t q = None -> lookup (fst (run_vv c0 t h)) q <> None ->
+   lookup (fst (run_vv c0 t h)) q = Some D /\ is_prefix q b = true).
+Proof. exact (fun b c0 h q H t W Hq => proj1 (vv_outside b c0 h q H t W Hq)). Qed.
+Print Assumptions C03_views_of_views_confined.
+
+(** THE DISK FILESPACE (Model/DiskFs.v, tied to the code by the C02 correspondence check; a
+    filespace is named by its host directory [b] relative to the root's).  Rejection at the level
+    of results; a chain of Filespace calls yields a host directory at or below the one it started
+    from; histories through any number of child filespaces at or below [b] are confined to [b]. *)
+Theorem C03_disk_climb_rejected_result : forall b t o s,
+  In s (args o) -> reduce s = None -> d_step b t o = (t, fail_out o).
+Proof. exact d_step_climb. Qed.
+Print Assumptions C03_disk_climb_rejected_result.
+
+Theorem C03_disk_views_of_views : forall t chain b b', good_path b = true ->
+  d_resolve t b chain = Some b' -> good_path b' = true /\ is_prefix b b' = true.
+Proof. exact d_resolve_under. Qed.
+Print Assumptions C03_disk_views_of_views.
+
+Theorem C03_disk_history_confined : forall b h t q,
+  WF t -> (forall bo, In bo h -> good_path (fst bo) = true /\ is_prefix b (fst bo) = true) ->
+  is_prefix b q = false ->
+  (forall e, lookup t q = Some e -> lookup (run_disk_at t h) q = Some e) /\
+  (lookup t q = None -> lookup (run_disk_at t h) q <> None ->
+   lookup (run_disk_at t h) q = Some D /\ is_prefix q b = true).
+Proof. exact (fun b h t q W H Hq => proj1 (disk_history_outside b h t q W H Hq)). Qed.
+Print Assumptions C03_disk_history_confined.
+
+(** Non-vacuity.  A view built as Filespace(a) / NewSubFS(b) / NewEncryptFS, rooted at [a;b]; two
+    parents that share nothing but the subtree at [a;b] and the directory [a]; a history with a
+    listing, a climbing read, a write through a view of the view, a copy to a climbing
+    destination, two attempts to obtain Filespace(..) (refused), the removal of the view's own root
+    through the view, and its re-creation.  Premises hold; answers are equal; what lies outside
+    [a;b] in either parent is untouched. *)
+Definition C03_ex2_ks : list ctor := [KChild [97]; KNewSub [98]; KEnc].
+Definition C03_ex2_c0 : chain := [LEnc; LSub [98; 47]; LWrap [97; 47]].
+Definition C03_ex2_t1 : fs :=
+  [([[97]], D); ([[97];[98]], D); ([[97];[98];[120]], F [1]); ([[115]], F [9]); ([[97];[107]], F [7])].
+Definition C03_ex2_t2 : fs :=
+  [([[122]], D); ([[97]], D); ([[97];[98]], D); ([[97];[98];[120]], F [1]); ([[115]], D); ([[115];[121]], F [5])].
+Definition C03_ex2_h : list (list bytes * op) :=
+  [ ([], OReadDir []); ([], OReadFile [46;46;47;46;46;47;115]); ([[100]], OWriteFile [102] [4]);
+    ([], OCopy [120] [46;46;47;107]); ([[100]; [46;46]], OLstat [100;47;102]); ([[46;46]], OIsDir []);
+    ([], ORemoveAll []); ([], OIsDir []); ([], OMkdirAll [110]) ].
+
+Example C03_ex2_premises :
+  build [] C03_ex2_ks = Some C03_ex2_c0 /\ root_of C03_ex2_c0 = Some [[97];[98]] /\
+  view_under [[97];[98]] C03_ex2_c0 /\ chain_under [[97];[98]] C03_ex2_c0 /\
+  vagree [[97];[98]] C03_ex2_t1 C03_ex2_t2 /\ WF C03_ex2_t1 /\ WF C03_ex2_t2 /\ C03_ex2_t1 <> C03_ex2_t2.
+Proof.
+  assert (Hv : view_under [[97];[98]] C03_ex2_c0) by (apply (api_view C03_ex2_ks); reflexivity).
+  split; [reflexivity|]. split; [reflexivity|]. split; [exact Hv|]. split; [apply view_chain_under; exact Hv|].
+  split; [split; [reflexivity|apply anc_sameb_sound; reflexivity]|].
+  split; [apply wf_WF; vm_compute; reflexivity|]. split; [apply wf_WF; vm_compute; reflexivity|discriminate].
+Qed.
+
+Example C03_ex2_run :
+  snd (run_vv C03_ex2_c0 C03_ex2_t1 C03_ex2_h)
+    = [RList [([120], false)]; RErr; RUnit; RErr; RErr; RErr; RUnit; RBool false; RUnit] /\
+  snd (run_vv C03_ex2_c0 C03_ex2_t2 C03_ex2_h) = snd (run_vv C03_ex2_c0 C03_ex2_t1 C03_ex2_h) /\
+  filter (fun qe => negb (is_prefix [[97];[98]] (fst qe))) (fst (run_vv C03_ex2_c0 C03_ex2_t1 C03_ex2_h))
+    = filter (fun qe => negb (is_prefix [[97];[98]] (fst qe))) C03_ex2_t1 /\
+  filter (fun qe => negb (is_prefix [[97];[98]] (fst qe))) (fst (run_vv C03_ex2_c0 C03_ex2_t2 C03_ex2_h))
+    = filter (fun qe => negb (is_prefix [[97];[98]] (fst qe))) C03_ex2_t2 /\
+  lookup (fst (run_vv C03_ex2_c0 C03_ex2_t1 C03_ex2_h)) [[97];[98];[120]] = None /\
+  lookup (fst (run_vv C03_ex2_c0 C03_ex2_t1 C03_ex2_h)) [[97];[98];[110]] = Some D.
+Proof. vm_compute. repeat split. Qed.
+
+(* the same operations as one history over explicit stacks: premise of C03_read_half_history and
+   C03_history_confined *)
+Example C03_ex2_chains :
+  Forall (fun co => chain_under [[97];[98]] (fst co))
+    [ (C03_ex2_c0, OReadDir []); ([LEnc; LSub [98;47;100;47]; LWrap [97;47]], OWriteFile [102] [4]);
+      ([LWrap [97;47;98;47]], ORemoveAll [120]) ].
+Proof.
+  assert (H0 : chain_under [[97];[98]] C03_ex2_c0).
+  { apply view_chain_under. apply (api_view C03_ex2_ks); reflexivity. }
+  apply Forall_cons; [exact H0|]. apply Forall_cons; [|apply Forall_cons; [|apply Forall_nil]].
+  - split; [reflexivity|]. split.
+    + simpl. split; [exists [98;47;100]; reflexivity|]. split; [exists [97]; reflexivity|exact I].
+    + right. exists [[97];[98];[100]]. split; reflexivity.
+  - split; [reflexivity|]. split.
+    + simpl. split; [exists [97;47;98]; reflexivity|exact I].
+    + right. exists [[97];[98]]. split; reflexivity.
+Qed.
+
+(* rejection at the level of results: a copy whose SOURCE climbs, through a read-write stack; the
+   root of the child obtained by Filespace(d/../e) *)
+Example C03_ex2_rejected :
+  In [46;46;47;115] (args (OCopy [46;46;47;115] [121])) /\ reduce [46;46;47;115] = None /\
+  chain_step C03_ex2_c0 C03_ex2_t1 (OCopy [46;46;47;115] [121]) = (C03_ex2_t1, RErr) /\
+  chain_step C03_ex2_c0 C03_ex2_t1 (OIsExist [46;46;47;115]) = (C03_ex2_t1, RBool false) /\
+  (exists c', child C03_ex2_c0 [100;47;46;46;47;101] = Some c' /\ root_of c' = Some [[97];[98];[101]]) /\
+  child C03_ex2_c0 [100;47;46;46;47;46;46;47;97] = None.
+Proof. vm_compute. repeat split. left; reflexivity. eexists; split; reflexivity. Qed.
+
+(* disk: child filespaces at a and a/k of a host tree; climbing write and copy refused, the
+   removal of a/k through its own filespace, a write below a; s is untouched *)
+Definition C03_ex2_dt : fs :=
+  [([[97]], D); ([[97];[120]], F [1]); ([[97];[107]], D); ([[97];[107];[121]], F [2]); ([[115]], F [9])].
+Definition C03_ex2_dh : list (path * op) :=
+  [([[97]], OWriteFile [46;46;47;115] [7]); ([[97];[107]], ORemoveAll []);
+   ([[97]], OCopy [120] [46;46;47;99]); ([[97]], OWriteFile [110;47;102] [5])].
+Example C03_ex2_disk :
+  WF C03_ex2_dt /\
+  (forall bo, In bo C03_ex2_dh -> good_path (fst bo) = true /\ is_prefix [[97]] (fst bo) = true) /\
+  run_disk_at C03_ex2_dt C03_ex2_dh
+    = [([[97]], D); ([[97];[120]], F [1]); ([[115]], F [9]); ([[97];[110]], D); ([[97];[110];[102]], F [5])] /\
+  d_step [[97]] C03_ex2_dt (OCopy [120] [46;46;47;99]) = (C03_ex2_dt, RErr) /\
+  d_resolve C03_ex2_dt [[97]] [[107]] = Some [[97];[107]] /\
+  d_resolve C03_ex2_dt [[97]] [[107]; [46;46;47;107]] = None.
+Proof.
+  split; [apply wf_WF; vm_compute; reflexivity|]. split.
+  - intros bo Hin. simpl in Hin.
+    repeat match goal with H : _ \/ _ |- _ => destruct H | H : False |- _ => destruct H end; subst; split; reflexivity.
+  - vm_compute. repeat split.
+Qed.
